@@ -4,6 +4,7 @@ links as a `lean_exe`.  One ops line in, one result line out.
 -/
 import Cacache.Ops
 import Cacache.Sha
+import Cacache.ShaCfg
 
 open Cacache
 
@@ -44,17 +45,8 @@ def parseFl (t : String) : Option Flavour :=
 def optVal (toks : List String) (name : String) : Option String :=
   (toks.find? (fun t => t.startsWith (name ++ "="))).map (fun t => (t.drop (name.length + 1)).toString)
 
-/-- Digests: SHA-1/2 natively; XXH3-128 from an oracle table supplied by the harness (`oracle xxh3 DATA
-DIGEST` lines) — bytes not in the table get an all-zero digest (which never equals a real one). -/
-def sha (xx : List (Bytes × Bytes)) (a : Algo) (d : Bytes) : Bytes :=
-  match a with
-  | .sha1 => Sha.sha1 d
-  | .sha256 => Sha.sha256 d
-  | .sha384 => Sha.sha384 d
-  | .sha512 => Sha.sha512 d
-  | .xxh3 => ((xx.find? (fun e => e.1 == d)).map (·.2)).getD (List.replicate 16 0)
-
-def mkCfg (xx : List (Bytes × Bytes)) : Cfg := { H := sha xx }
+-- The digest function `sha` and the configuration `mkCfg` are in `Cacache/ShaCfg.lean` (`Lemmas/ShaLen.lean` proves the
+-- digest lengths, hence `HexLen (mkCfg xx)` - given that every oracle entry has 16 bytes, which `oracle` checks).
 
 /-! ### result formatting -/
 
@@ -283,6 +275,8 @@ def step (st : St) (line : String) : St × String :=
     | "lopen_abs" :: r => "lopen" :: r
     | "lopen_auto_abs" :: r => "lopen_auto" :: r
     | ["lcommit_cd", l, _] => ["lcommit", l]
+    -- a pending write polled again with a longer slice, the rest handed to write_all: all the bytes, once, in order
+    | ["wwrite_grow", w, d1, d2] => ["wwrite", w, d1 ++ (d2.drop 1).toString]
     -- the constructors `Writer::create(_with_algo)` / `SyncWriter::create(_with_algo)` are `open` with nothing declared
     -- chunks handed over with `write_vectored` are the same bytes in the same order
     | "wwritev" :: w :: ds => ["wwrite", w, "x" ++ String.join (ds.map (fun (d : String) => (d.drop 1).toString))]
@@ -351,6 +345,14 @@ def step (st : St) (line : String) : St × String :=
     match lookupId st.writers w with
     | some (_, wr) =>
       let (r, st', took) := runP env st (wcommit cfg wr)
+      ({ st' with writers := eraseId st'.writers w }, resSri env r (took && r.isOk))
+    | none => (st, "err badid")
+  | ["wcommit_cd", w, dir] =>
+    -- the cache was named by a relative path: committed from another working directory, content and index record
+    -- both go below THAT directory (the temp file stays where it was created)
+    match lookupId st.writers w with
+    | some (_, wr) =>
+      let (r, st', took) := runP env st (wcommit cfg { wr with cache := parsePath dir ++ wr.cache })
       ({ st' with writers := eraseId st'.writers w }, resSri env r (took && r.isOk))
     | none => (st, "err badid")
   | ["wdrop", w] =>
@@ -594,7 +596,8 @@ def step (st : St) (line : String) : St × String :=
     | none => (st, if parsePath p == [] then "ok dir" else "ok absent")
   | ["oracle", "xxh3", d, h] =>
     match parseB d, parseB h with
-    | some data, some dig => ({ st with xx := (data, dig) :: st.xx }, "ok")
+    | some data, some dig =>
+      if dig.length = 16 then ({ st with xx := (data, dig) :: st.xx }, "ok") else bad
     | _, _ => bad
   | ["dump", p] =>
     let es := dumpEntries st.fs (parsePath p)
